@@ -141,6 +141,12 @@ Line ==
          s == IF s1.alive /\ ~s1.run[i] /\ ~s1.disabled[i] THEN [s1 EXCEPT !.run[i] = TRUE, !.inc[i] = @ + 1] ELSE s1
      IN /\ SetRef(s) /\ UNCHANGED cfgvars
         /\ mismatch' = Compare(e, Cur, s)
+  ELSE IF e.ev = "exitsup" THEN
+     \* the supervisor is told to stop (e.why) while a child is busy and then dies of a reason of its own: everything stops, and the
+     \* supervisor ends with the reason it was given
+     LET s == IF alive THEN StopAll(Cur, e.why) ELSE Cur
+     IN /\ SetRef(s) /\ UNCHANGED cfgvars
+        /\ mismatch' = Compare(e, Cur, s)
   ELSE IF e.ev = "startchild" THEN
      \* one more instance of the spec (refused while the spec is disabled)
      LET Freeslots == {j \in 1..n : ~run[j]}
